@@ -156,6 +156,15 @@ func (s *Sim) build(client int, sp *ReqSpec) (*t_api.Request, *sapi.Error, bool)
 	case "DeleteSchedule":
 		return &t_api.Request{Kind: t_api.DeleteSchedule, DeleteSchedule: &t_api.DeleteScheduleRequest{Id: sp.Id}}, nil, true
 	case "CreateSchedule":
+		// both front ends pass the cron expression and the promise id template through the
+		// production helper before anything reaches the kernel
+		helper := sapi.New(s.api, "sim")
+		if aerr := helper.ValidateCron(sp.Cron); aerr != nil {
+			return nil, aerr, true
+		}
+		if aerr := helper.ValidatePromiseIdTemplate(sp.PromiseId); aerr != nil {
+			return nil, aerr, true
+		}
 		return &t_api.Request{Kind: t_api.CreateSchedule, CreateSchedule: &t_api.CreateScheduleRequest{
 			Id: sp.Id, Description: sp.Desc, Cron: sp.Cron, Tags: cpMap(sp.Tags), PromiseId: sp.PromiseId, PromiseTimeout: sp.PromiseTimeout,
 			PromiseParam: value(sp.Headers, sp.Data), PromiseTags: cpMap(sp.PromiseTags), IdempotencyKey: ikey(sp.IKey),
